@@ -216,6 +216,16 @@ def run_one(V, base, cfg, seedinfo):
     rng = common.rng_for(seedinfo)
     nprng = np.random.RandomState(rng.randrange(2 ** 32))
     leaves = gen_scalar_pyramid(rng, mode, start, allow_neg=(mode in ("I16", "I32") and how == "pio"))
+    # sign variants: data ranges that are entirely non-positive, or straddle zero
+    # (log-scaled or background-subtracted maps); negation keeps every mean exact
+    sign = rng.choice(("pos", "pos", "neg", "mixed")) if mode != "U8" else "pos"
+    if sign != "pos":
+        flipped = {}
+        for i, (p, (m, a)) in enumerate(sorted(leaves.items())):
+            if sign == "neg" or i % 2 == 0:
+                a = -np.abs(a)
+            flipped[p] = (m, a)
+        leaves = flipped
     case = dict(type="fits-pyramid", cfg=list(cfg), seed=seedinfo, leaves=sorted(map(list, leaves)))
     if how == "raw":
         # arbitrary / missing cards on the leaves (not written by toasty)
